@@ -150,7 +150,18 @@ type GS = GatedStore<SqliteStore, WriterGate>;
 async fn run_tx(store: &GS, model: &Rc<RefCell<TxModel>>, w: usize, t: usize, script: &TxScript) -> Result<(), String> {
     let key = signing_key(0);
     let author = key.verifying_key();
-    let permit = store.begin().await.map_err(|e| format!("begin: {e}"))?;
+    let permit = match store.begin().await {
+        Ok(p) => p,
+        // Only possible on the pool with the short acquire timeout (begin-failure runs): on an
+        // overloaded machine even an idle connection can take longer than that to arrive. The
+        // transaction then simply did not happen; the permit went back when `begin()` returned.
+        Err(e) if e.to_string().contains("pool timed out") => {
+            ctx::probe("begin_timed_out_under_load");
+            model.borrow_mut().release(w);
+            return Ok(());
+        }
+        Err(e) => return Err(format!("begin: {e}")),
+    };
     {
         let prev = model.borrow().holder;
         if prev != Some(w) {
@@ -311,11 +322,11 @@ impl Property for C10Prop {
 
         stepexec::block_on(async move {
             // A `begin()` that fails (every pool connection is checked out, the pool gives up after
-            // 200 ms) before the writers start: it must leave the permit machinery as it found it.
-            let begin_failure = file_db && faults && ctx::chance("begin.fails", 1, 4);
+            // one second) before the writers start: it must leave the permit machinery as it found it.
+            let begin_failure = file_db && faults && ctx::chance("begin.fails", 1, 8);
             let sqlite = if begin_failure {
                 let _ = std::fs::remove_file(&path);
-                let s = simworld::populate::sqlite_file_with_acquire_timeout(&path, 4, std::time::Duration::from_millis(200)).await;
+                let s = simworld::populate::sqlite_file_with_acquire_timeout(&path, 4, std::time::Duration::from_millis(1000)).await;
                 simworld::populate::install_commit_hold(&s, 4).await;
                 let hog = simworld::populate::hog_connections(&s, 4).await;
                 match <SqliteStore as Transaction>::begin(&s).await {
